@@ -58,6 +58,8 @@ func main() {
 	pkgsF := fs.String("pkgs", "./...", "comma separated package patterns")
 	out := fs.String("out", "", "JSON output")
 	allow := fs.String("allow", "", "allowlist file (inventory mode)")
+	typ := fs.String("type", "", "pkg.Type (deadfield mode)")
+	field := fs.String("field", "", "field name (deadfield mode)")
 	plain := fs.String("plain", "", "plain expansion (erasure mode)")
 	debug := fs.String("debug", "", "debug expansion (erasure mode)")
 	fs.Parse(os.Args[2:])
@@ -67,6 +69,8 @@ func main() {
 		res = shared(*dir, strings.Split(*pkgsF, ","))
 	case "inventory":
 		res = inventory(*dir, strings.Split(*pkgsF, ","), *allow)
+	case "deadfield":
+		res = deadfield(*dir, strings.Split(*pkgsF, ","), *typ, *field)
 	case "erasure":
 		res = erasure(*plain, *debug, strings.Split(*pkgsF, ","))
 	default:
